@@ -57,6 +57,13 @@ def run(tier, rng, C):
     v += bad
     stats["large_document_pairs"] = nbig
     stats["evaluations"] = stats.get("evaluations", 0) + nbig
+    # the same library calls through the crate's own HTTP clients (reqwest, reqwest blocking, curl, ureq) against a scripted
+    # loopback server: the outcome must be the one an in-memory client given the same reply produces (gen/same.py)
+    from gen import same as SAME
+    bad_same, n_same = SAME.run("C15", SAME.cases(["introspect"], rng, statuses=(200, 400), success_docs=16), C)
+    v += bad_same
+    stats["through_bundled_adapters"] = n_same
+    stats["evaluations"] = stats.get("evaluations", 0) + n_same
     stats["rule"] = ("introspection value-model documents (each optional member absent/null/present, hostile strings, token_type spellings, timestamps, aud shapes, extension members, unknown members, "
                      "random member order / whitespace / escaping) decoded directly and through a 200 reply; every corruption of `active` (missing, null, false, 0, 1, \"true\", \"false\", [], {}, 1.0, ...), "
                      "timestamp boundaries (chrono limits +-1, i64/u64 limits, float, string), aud shapes, null for each optional member, all single-member deletions/type corruptions/duplications of a subset, "
